@@ -217,12 +217,25 @@ func (c *FnCtx) heapSort(leaf Sort, twoLevel bool) Sort {
 	return SArr(SInt, leaf)
 }
 
+func pinnedHeap(name string) bool {
+	return name == "alloc" || name == "held$" || strings.HasPrefix(name, "ghost$") || strings.HasPrefix(name, "atomic$")
+}
+
+// initHeap is the constant standing for a heap that has not been written since the state's
+// last wholesale havoc (epoch). Ghost heaps are never havocked wholesale.
+func (c *FnCtx) initHeap(epoch int, name string, sort Sort) Term {
+	if pinnedHeap(name) {
+		epoch = 0
+	}
+	return c.vc.Const(fmt.Sprintf("H%d$%s", epoch, name), sort)
+}
+
 func (c *FnCtx) heapGet(st *State, name string, sort Sort) Term {
 	if t, ok := st.heap[name]; ok {
 		return t
 	}
 	c.heapNames[name] = sort
-	return c.vc.Const(fmt.Sprintf("H%d$%s", st.epoch, name), sort)
+	return c.initHeap(st.epoch, name, sort)
 }
 
 func (c *FnCtx) heapSet(st *State, name string, t Term) {
@@ -259,16 +272,35 @@ func (c *FnCtx) writeLeaf(st *State, loc *Loc, lf Leaf, v Term) {
 }
 
 // subRef gives the reference of a struct stored by value at loc.
+// subAxioms: sub-references of different fields are different objects, and the map from the
+// enclosing object to the embedded one is injective.
+func (c *FnCtx) subAxioms(name string, f string, arity int, keySort Sort) {
+	if _, done := c.subFuncs[name]; done {
+		return
+	}
+	id := len(c.subFuncs) + 1
+	tag := c.vc.Declare("subtag", []Sort{SInt}, SInt)
+	if arity == 1 {
+		inv := c.vc.Declare("inv$"+name, []Sort{SInt}, SInt)
+		c.vc.Assert(Term{fmt.Sprintf("(forall ((x Int)) (! (and (= (%s (%s x)) x) (= (%s (%s x)) %d)) :pattern ((%s x))))", inv, f, tag, f, id, f), SBool})
+	} else {
+		inv := c.vc.Declare("inv$"+name, []Sort{SInt}, SInt)
+		c.vc.Assert(Term{fmt.Sprintf("(forall ((x Int) (k %s)) (! (and (= (%s (%s x k)) x) (= (%s (%s x k)) %d)) :pattern ((%s x k))))", keySort, inv, f, tag, f, id, f), SBool})
+	}
+}
+
 func (c *FnCtx) subRef(loc *Loc) Term {
 	name := "sub$" + loc.Prefix
 	if loc.Idx2 != nil {
 		f := c.vc.Declare(name, []Sort{SInt, loc.Idx2.Sort}, SInt)
+		c.subAxioms(name, f, 2, loc.Idx2.Sort)
 		c.subFuncs[name] = 2
 		r := Term{fmt.Sprintf("(%s %s %s)", f, loc.Idx.S, loc.Idx2.S), SInt}
 		c.noteSubRoot(r, loc.Idx)
 		return r
 	}
 	f := c.vc.Declare(name, []Sort{SInt}, SInt)
+	c.subAxioms(name, f, 1, SInt)
 	c.subFuncs[name] = 1
 	r := Term{fmt.Sprintf("(%s %s)", f, loc.Idx.S), SInt}
 	c.noteSubRoot(r, loc.Idx)
@@ -743,7 +775,7 @@ func (c *FnCtx) mergeStates(ins []edgeState) *State {
 		// fresh epoch for names never seen so far (conservative: they become unconstrained)
 		for k, srt := range c.heapNames {
 			if _, ok := out.heap[k]; !ok {
-				out.heap[k] = c.vc.Const(fmt.Sprintf("H%d$%s", lastEpoch, k), srt)
+				out.heap[k] = c.initHeap(lastEpoch, k, srt)
 			}
 		}
 		c.epochs++
@@ -789,7 +821,7 @@ func (c *FnCtx) mergeStates(ins []edgeState) *State {
 			a := c.heapGetAt(e.st, k, srt)
 			b, ok := out.heap[k]
 			if !ok {
-				b = c.vc.Const(fmt.Sprintf("H%d$%s", lastEpoch, k), srt)
+				b = c.initHeap(lastEpoch, k, srt)
 			}
 			out.heap[k] = c.mergeTerm(g, a, b)
 		}
@@ -821,5 +853,5 @@ func (c *FnCtx) heapGetAt(st *State, name string, sort Sort) Term {
 	if t, ok := st.heap[name]; ok {
 		return t
 	}
-	return c.vc.Const(fmt.Sprintf("H%d$%s", st.epoch, name), sort)
+	return c.initHeap(st.epoch, name, sort)
 }
